@@ -470,7 +470,7 @@ impl Check for C03 {
     }
     fn n_cases(&self, tier: Tier) -> u64 {
         match tier {
-            Tier::Quick => 6_000,
+            Tier::Quick => 20_000,
             Tier::Thorough => 400_000,
         }
     }
